@@ -136,7 +136,25 @@ def theorem_names(pid):
     return names
 
 
-def run_audit(pid):
+def import_closure(modules):
+    """paths of the PdbVerif source files transitively imported by `modules`"""
+    seen, todo = {}, list(modules)
+    while todo:
+        m = todo.pop()
+        if m in seen or not m.startswith('PdbVerif'):
+            continue
+        path = os.path.join(LEAN, *m.split('.')) + '.lean'
+        if not os.path.exists(path):
+            continue
+        seen[m] = path
+        for line in open(path):
+            mm = re.match(r'\s*import\s+(PdbVerif\.\S+)', line)
+            if mm:
+                todo.append(mm.group(1))
+    return set(seen.values())
+
+
+def run_audit(pid, cluster=None):
     """#print axioms for every theorem of Props/<pid>; forbidden-token grep over /verif/lean"""
     names = theorem_names(pid)
     audit_path = os.path.join(LEAN, 'PdbVerif', 'Audit', f'{pid}.lean')
@@ -160,12 +178,11 @@ def run_audit(pid):
             res[n] = []
         else:
             bad.append((n, ['<no axiom report>']))
-    # forbidden tokens outside comments
+    # forbidden tokens outside comments, in every file the property's theorems and its drivers import (transitively)
     hits = []
-    for root, _, files in os.walk(os.path.join(LEAN, 'PdbVerif')):
-        for fn in files:
-            if fn.endswith('.lean'):
-                hits += forbidden_hits(os.path.join(root, fn))
+    roots = [f'PdbVerif.Props.{pid}'] + [f'PdbVerif.Driver.Main{c}' for c in (cluster or '')]
+    for path in sorted(import_closure(roots)):
+        hits += forbidden_hits(path)
     return {'theorems': names, 'axioms': res, 'bad': bad, 'forbidden': hits, 'ok': p.returncode == 0 and not bad and not hits,
             'log': out[-3000:] if p.returncode != 0 else ''}
 
